@@ -19,6 +19,10 @@ Good(r) ==
     CASE r.act = "Export"      -> NoErr(r) /\ ExportGood(SetOf(r.src), r.stream)
       [] r.act = "Import"      -> NoErr(r) /\ Uniq(r.post) /\ ImportGood(SetOf(r.src), SetOf(r.post))
       [] r.act = "Reserialize" -> NoErr(r) /\ Uniq(r.post) /\ ImportGood(SetOf(r.src), SetOf(r.post))
+      [] r.act = "Marshal"     -> /\ (r.fault = 0 => r.ok)
+                                  /\ Uniq(r.got) /\ MarshalGood(SetOf(r.src), r.ok, SetOf(r.got))
+      [] r.act = "CLoad"       -> WholeSegs(r.segs, r.sizes)
+      [] r.act = "CFinal"      -> WholeSegs(r.segs, r.sizes) /\ r.segs[1].l # "Z"
       [] r.act = "SnapSave"    -> NoErr(r)
       [] r.act = "Offline"     -> NoErr(r) /\ Uniq(r.got) /\ SnapGood(SetOf(r.saved), SetOf(r.got))
       [] r.act = "StartPeer"   -> NoErr(r) /\ Uniq(r.got) /\ SnapGood(SetOf(r.saved), SetOf(r.got))
@@ -38,6 +42,9 @@ Conf(r) ==
     CASE r.act = "Export"      -> ExportConforms(SetOf(r.src), r.stream)
       [] r.act = "Import"      -> SetOf(r.post) = ImportResult(r.stream, SetOf(r.pre))
       [] r.act = "Reserialize" -> SetOf(r.post) = UnmarshalResult(AnySeq(SetOf(r.src)), SetOf(r.pre))
+      [] r.act = "Marshal"     -> r.ok = ~(r.fault > 0 /\ r.fault <= Len(r.src))
+      [] r.act = "CLoad"       -> TRUE
+      [] r.act = "CFinal"      -> TRUE
       [] r.act = "SnapSave"    -> /\ r.idx  = IF r.had THEN r.preidx  ELSE 2
                                   /\ r.term = IF r.had THEN r.preterm ELSE 1
       [] r.act = "Offline"     -> TRUE
